@@ -27,9 +27,10 @@ type discDoc struct {
 }
 
 type discAnswer struct {
-	Kind   string  `json:"kind"` // doc | status | undecodable | transport
-	Status int     `json:"status,omitempty"`
-	Doc    discDoc `json:"doc"`
+	Kind    string   `json:"kind"` // doc | status | undecodable | transport
+	Status  int      `json:"status,omitempty"`
+	Doc     discDoc  `json:"doc"`
+	Methods []string `json:"code_challenge_methods_supported,omitempty"` // served with the document; the service must keep using S256
 }
 
 func (a discAnswer) wire() string {
@@ -88,6 +89,9 @@ func (f *fakeIDP) serveDiscovery(w http.ResponseWriter, r *http.Request) bool {
 		put("token_endpoint", a.Doc.Token)
 		put("jwks_uri", a.Doc.Jwks)
 		put("end_session_endpoint", a.Doc.EndSession)
+		if a.Methods != nil {
+			m["code_challenge_methods_supported"] = a.Methods
+		}
 		b, _ := json.Marshal(m)
 		_, _ = w.Write(b)
 	}
